@@ -175,7 +175,11 @@ def use_start_symbol(plan: Dict[str, Any], rng: random.Random) -> None:
     sub-grammar reachable from <x>, and returned trees must be rooted at <x>."""
     from gen.grammars import prune
 
-    sc = rng.choice(plan["scenarios"])
+    sources = {s.get("derived_from") for s in plan["scenarios"]}
+    plain = [s for i, s in enumerate(plan["scenarios"]) if s.get("derived_from") is None and i not in sources]
+    if not plain:
+        return
+    sc = rng.choice(plain)
     g = sc["grammar"]
     cands = sorted(nt for nt in g if nt != "<start>")
     if not cands:
@@ -188,7 +192,7 @@ def use_start_symbol(plan: Dict[str, Any], rng: random.Random) -> None:
     text = print_formula(formula)
     if "<start>" in text:
         return
-    sc.update(formula=formula, formula_text=text, start_symbol=nt, oracle_grammar=g2)
+    sc.update(formula=formula, formula_text=text, start_symbol=nt, oracle_grammar=g2, settings=dict(sc["settings"], start_symbol=nt))
 
 
 def add_api_ops(ops, n_solvers, rng):
@@ -474,6 +478,8 @@ def setting_tags(st: Dict[str, Any]) -> List[str]:
     tim = st.get("tree_insertion_methods")
     if tim == 0 or (tim is None and st.get("activate_unsat_support")):
         tags.append("setting:no_tree_insertion")
+    if st.get("start_symbol"):
+        tags.append("setting:start_symbol")
     return tags
 
 
